@@ -81,7 +81,11 @@ func c02SetOp(tag string, except bool) {
 	// (measured: with 3 rows on both sides two of the final queries of EXCEPT ALL stay undecided at 90 s;
 	// 4 on both sides left 17 undecided)
 	nl := nd.IntRange(tag+".nl", 0, 3)
-	nr := nd.IntRange(tag+".nr", 0, nd.Bound(2, 3))
+	nrMax := nd.Bound(2, 3)
+	if except {
+		nrMax = 2
+	}
+	nr := nd.IntRange(tag+".nr", 0, nrMax)
 	lrows, lv := c02Side(tag+".l", nl)
 	rrows, rv := c02Side(tag+".r", nr)
 	var it sql.RowIter
